@@ -356,6 +356,12 @@ func (e *Engine) appendModel(fr *Frame, st *State, s T, tv Val, sT, tT types.Typ
 	e.recStoreIf(st, hn, sb, inplace)
 	e.recStore(st, hn, nb)
 	e.setHeap(st, hn, nh)
+	// contents of the result, triggered by reads of the result
+	cur := e.heap(st, hn, hs)
+	e.assume(st, T{fmt.Sprintf("(forall ((k Int)) (! (=> (and (<= (soff %s) k) (< k (+ (soff %s) %s))) (= (select (select %s (sbase %s)) k) (select (select %s %s) (+ %s (- k (soff %s)))))) :pattern ((select (select %s (sbase %s)) k))))",
+		res.S, res.S, n1.S, cur.S, res.S, h.S, sb.S, so.S, res.S, cur.S, res.S), sBool})
+	e.assume(st, T{fmt.Sprintf("(forall ((k Int)) (! (=> (and (<= (+ (soff %s) %s) k) (< k (+ (soff %s) %s))) (= (select (select %s (sbase %s)) k) (select (select %s %s) (+ %s (- k (+ (soff %s) %s)))))) :pattern ((select (select %s (sbase %s)) k))))",
+		res.S, n1.S, res.S, total.S, cur.S, res.S, h.S, tb.S, to.S, res.S, n1.S, cur.S, res.S), sBool})
 	return res
 }
 
